@@ -36,6 +36,8 @@ enum Prim {
     Bcast(Box<GenericOneshotBroadcastChannel<PL, CTag>>),
     State(Box<GenericStateBroadcastChannel<PL, CTag>>),
     Timer(Box<GenericTimerService<PL>>),
+    /// mutex held by a guard (dropped by Fire); the woken futures lock and unlock in a chain
+    Mutex(Box<futures_intrusive::sync::GenericMutex<PL, u32>>, Option<futures_intrusive::sync::GenericMutexGuard<'static, PL, u32>>),
 }
 
 #[derive(Clone, Copy, Debug, PartialEq)]
@@ -47,6 +49,8 @@ pub enum Op {
 
 pub struct Sys {
     futs: Vec<Option<DynFut>>,
+    // NOTE: Prim::Mutex holds its guard next to the mutex; the guard is declared after the Box in
+    // the tuple but is always taken (dropped) before the mutex by Fire or by Drop below
     prim: Prim,
     kind: u8,
     n_max: usize,
@@ -155,6 +159,16 @@ impl Sys {
                     R_UNIT
                 })
             }
+            Prim::Mutex(m, _) => {
+                let m: &'static futures_intrusive::sync::GenericMutex<PL, u32> = stat!(m, futures_intrusive::sync::GenericMutex<PL, u32>);
+                let f = m.lock();
+                Box::pin(async move {
+                    let mut g = f.await;
+                    *g += 1;
+                    drop(g);
+                    R_UNIT
+                })
+            }
         }
     }
 
@@ -162,6 +176,15 @@ impl Sys {
         let (na, nf) = harness::take_alloc_counts();
         if na + nf > 0 {
             out.p("C18", "alloc-in-call", format!("{} allocations / {} frees inside {} with {} parked futures", na, nf, what, self.futs.iter().flatten().count()));
+        }
+    }
+}
+
+impl Drop for Sys {
+    fn drop(&mut self) {
+        self.futs.clear();
+        if let Prim::Mutex(_, g) = &mut self.prim {
+            drop(g.take());
         }
     }
 }
@@ -181,6 +204,12 @@ impl System for Sys {
             5 => (Prim::Bcast(Box::new(GenericOneshotBroadcastChannel::new())), "C12"),
             6 => (Prim::State(Box::new(GenericStateBroadcastChannel::new())), "C13"),
             7 => (Prim::Timer(Box::new(GenericTimerService::new(clock()))), "C15"),
+            8 => {
+                let m = Box::new(futures_intrusive::sync::GenericMutex::<PL, u32>::new(0, cfg.flag("fair")));
+                let mr: &'static futures_intrusive::sync::GenericMutex<PL, u32> = stat!(&m, futures_intrusive::sync::GenericMutex<PL, u32>);
+                let g = mr.try_lock().expect("fresh mutex");
+                (Prim::Mutex(m, Some(g)), "C03")
+            }
             _ => panic!("unknown burst kind"),
         };
         let n_max = cfg.get_or("n", 40) as usize;
@@ -270,7 +299,14 @@ impl System for Sys {
                         clock().set_time(1);
                         lib(|| t.check_expirations())
                     }
+                    Prim::Mutex(_, _) => Ok(()),
                 };
+                if let Prim::Mutex(_, g) = &mut self.prim {
+                    let g = g.take();
+                    if let Err(p) = lib(|| drop(g)) {
+                        out.v("C01", "panic", format!("dropping the guard panicked: {}", p));
+                    }
+                }
                 if let Err(p) = r {
                     out.v("C01", "panic", format!("the mass wake-up operation panicked with {} parked futures: {}", n, p));
                     out.corrupt = true;
@@ -281,6 +317,7 @@ impl System for Sys {
                 let expect = match (&self.prim, n) {
                     (_, 0) => 0,
                     (Prim::Sem(_), _) if woken >= 1 && woken < n => woken,
+                    (Prim::Mutex(_, _), _) => 1,
                     _ => n,
                 };
                 if woken < expect {
